@@ -100,6 +100,26 @@ def _vcase(case, v, strategy):
                 strategy=strategy, mode=case.get("mode", "E"))
 
 
+# The adapter and the oracle of ONE case are called one after the other in the same worker process; the reactor runs of the
+# adapter (one per writing and strategy, in that order) are kept for the oracle of the same case, which would otherwise
+# repeat exactly the same sequence of applications.  The memo is emptied whenever another case starts.
+_MEMO = {"case": None, "recs": {}}
+
+
+def _memo_key(case):
+    return (case.get("name"), tuple((v["sub"], v["rsmi"]) for v in case["variants"]), case.get("mode"), bool(case.get("invert")))
+
+
+def _run_memo(case, v, strategy):
+    k = _memo_key(case)
+    if _MEMO["case"] != k:
+        _MEMO["case"], _MEMO["recs"] = k, {}
+    kk = (v["sub"], v["rsmi"], strategy)
+    if kk not in _MEMO["recs"]:
+        _MEMO["recs"][kk] = _run(case, v, strategy, want_smarts=True)
+    return _MEMO["recs"][kk]
+
+
 def _run(case, v, strategy, want_smarts=False):
     """K.run_reactor with an extra recorder on _to_smarts (which glued graph produced which string)."""
     import synkit.Synthesis.Reactor.syn_reactor as SR
@@ -165,6 +185,19 @@ def _strategy_obs(rec, mode):
     return [nraw, len(rec.mappings), nauts, len(res), S(res), 0 if rec.its_err is None else 1]
 
 
+def _model_variants(case):
+    """indices of the writings whose intermediate results are compared with the model: the base, one substrate rewriting,
+    one template numbering and the combined one (the oracle judges ALL writings; every writing is applied by the adapter)"""
+    vs = case["variants"]
+    idx = [0]
+    for pref in ("sub:", "tpl:", "both"):
+        for i, v in enumerate(vs):
+            if i and v["v"].startswith(pref):
+                idx.append(i)
+                break
+    return idx
+
+
 def impl(case):
     from synkit.Graph.Hyrogen._misc import h_to_implicit, has_XH
     pre = case.get("pre")
@@ -172,13 +205,16 @@ def impl(case):
         return ["SKIP"]
     mode = case.get("mode", "E")
     out = []
-    for v in case["variants"]:
+    keep = set(_model_variants(case))
+    for i, v in enumerate(case["variants"]):
         per = []
         first = None
         for st in case["strategies"]:
-            rec = _run(case, v, st)
+            rec = _run_memo(case, v, st)
             first = first or rec
             per.append(_strategy_obs(rec, mode))
+        if i not in keep:
+            continue
         left = first.rule.left.raw
         pat = h_to_implicit(left) if has_XH(left) else left
         out.append([K.rc_obs(first.rule.rc.raw, mode != "I"), 1 if first.flag else 0, K.mol_obs(pat), 1, per])
@@ -209,7 +245,8 @@ def prepare(case):
     vs = []
     cost = dict(raw=0, glued=0, host=0)
     try:
-        for v in case["variants"]:
+        mv = set(_model_variants(case))
+        for vi, v in enumerate(case["variants"]):
             rec = K.run_reactor(_vcase(case, v, "all"))
             if not K.in_domain_tpl(rec.tpl):
                 case["pre"] = {"outside": "template outside the model domain (wildcard / missing typesGH)"}
@@ -224,10 +261,12 @@ def prepare(case):
             np_, nh_ = rec.tpl.number_of_nodes(), rec.host.number_of_nodes()
             # rough seconds of vm_compute for the three strategies of this writing (measured: 38-node pattern in a 38-node host
             # 1.3 s per run, 4-node pattern in a 56-node host 0.3 s per run)
+            if vi not in mv:
+                continue
             cost["est"] = cost.get("est", 0.0) + len(case["strategies"]) * (1.3 * np_ * nh_ * (np_ + 10) / 69000.0 + 0.3 * (nh_ / 56.0) ** 2)
             # the exhaustive enumeration of a multi-component pattern explores the cross product of the candidates: measured
-            # 12.6 s for 112 matches in a 62-atom host; it is evaluated twice per writing (strategy ALL and the premise monitor)
-            cost["est"] += 2 * len(rec.raw) * nh_ / 550.0
+            # 12.6 s for 112 matches in a 62-atom host; the run function evaluates it once per writing (shared by strategy ALL and the premise monitor)
+            cost["est"] += 1.2 * len(rec.raw) * nh_ / 550.0
     except Exception as e:
         case["pre"] = {"error": type(e).__name__ + ": " + str(e)[:120]}
         return case
@@ -275,7 +314,7 @@ def coq_case(case):
     if "error" in pre or "outside" in pre or pre.get("big"):
         return None
     mode = case.get("mode", "E")
-    vs = K.cl(["(%s, %s)" % (_c_host(h), _c_tpl(t)) for h, t in pre["vs"]])
+    vs = K.cl(["(%s, %s)" % (_c_host(h), _c_tpl(t)) for h, t in [pre["vs"][i] for i in _model_variants(case)]])
     strats = K.cl([K.cN(STRATS[s]) for s in case["strategies"]])
     return "run_c05 %s %s %s %s %s" % (K.cb(case.get("invert", False)), K.cb(mode == "I"), K.cb(mode == "E"), strats, vs)
 
@@ -346,7 +385,7 @@ def _sub_iso_sets(A, B):
 
 def _observe(case, v, st):
     """one reactor run -> dict(set of standardised reactions, iso classes of the glued graphs that serialise, raw, kept)"""
-    rec = _run(case, v, st, want_smarts=True)
+    rec = _run_memo(case, v, st)
     if rec.its_err is not None:
         return dict(err=rec.its_err, std=set(), iso={}, nraw=len(rec.raw), nkept=len(rec.mappings), rec=rec, dropped=0)
     std, dropped = _std_set(rec.smarts)
@@ -595,7 +634,7 @@ def distribution(cases, obss):
         d["modes"][c.get("mode", "E")] = d["modes"].get(c.get("mode", "E"), 0) + 1
         k = "backward" if c.get("invert") else "forward"
         d["direction"][k] = d["direction"].get(k, 0) + 1
-        for v, vo in zip(c["variants"], o):
+        for v, vo in zip([c["variants"][i] for i in _model_variants(c)], o):
             kind = v["v"]
             d["variant_kinds"][kind] = d["variant_kinds"].get(kind, 0) + 1
             d["variants_total"] += 1
@@ -658,8 +697,8 @@ def gen_cases(tier, rng):
     pairs_tbl = json.load(open(os.path.join(K.VERIF, "corpus", "C03_pairs.json")))["pairs"]
     pairs = list(Gn.hand_pairs(full_all=(tier != "quick")))
     if tier == "quick":
-        pick = {"usp": rng.sample(idx["usp"], 8), "eco": rng.sample(idx["eco"], 10)}
-        nfor, k_sub, k_tpl, cap = 2, 1, 1, 14.0
+        pick = {"usp": rng.sample(idx["usp"], 6), "eco": rng.sample(idx["eco"], 8)}
+        nfor, k_sub, k_tpl, cap = 1, 1, 1, 8.0
     else:
         pick = {"usp": rng.sample(idx["usp"], 40), "eco": rng.sample(idx["eco"], 70)}
         nfor, k_sub, k_tpl, cap = 3, 2, 2, 30.0
